@@ -1,0 +1,9 @@
+//go:build !verif
+
+package verifhook
+
+// At is a no-op unless built with the "verif" tag.
+func At(string, ...interface{}) {}
+
+// Enabled reports whether hooks are compiled in.
+func Enabled() bool { return false }
